@@ -5,6 +5,41 @@ from llsym import build
 from xh.runner import Cond, run_conditions
 
 
+def _py_work(a):
+    from checks import py_common
+    return py_common.work(a)
+
+
+def _pysym_stage(rep, tier):
+    """E4: array-validation and built-in-container round trip clauses over the codec corpus (the real generated classes and support module)"""
+    import pydsdl
+    from checks import codec_common as cc, py_common
+    from llsym import corpus
+    with common.scratch("nvc18p_") as d:
+        es = cc.corpus_entries(tier)
+        ns = corpus.write(d / "dsdl", es)
+        types = pydsdl.read_namespace(str(ns), [], allow_unregulated_fixed_port_id=True)
+        flat = []
+        for t in types:
+            flat += [t.request_type, t.response_type] if isinstance(t, pydsdl.ServiceType) else [t]
+        cc._CTX.update(feats={n.split(".")[-1]: f for n, _, f in es})
+        try:
+            py_common.generate(d, ns)
+        except Exception as e:
+            rep.unknown("py:generate", f"nnvg failed: {str(e)[-300:]}")
+            return
+        py_common.TYPES[:] = flat
+        tasks = [(k, i, tier) for i in range(len(flat)) for k in ("builtin", "arrayval")]
+        for res in common.pmap(_py_work, tasks):
+            for ti, on, what, lg, tu, wall in res:
+                cc.record(rep, flat[ti], on, what, lg, tu, wall, replayer=py_common.replayer(flat[ti]))
+        py_common.cosim(rep, flat, per_type=1)
+        rep.bounds["pysym_types"] = len(flat)
+        # "the type model embedded in each class equals the source DSDL model": GROUND evaluation (no symbolic variable), real numpy/pickle
+        from checks import C05
+        C05._python_metadata(rep, d, ("_MODEL_", "str(_MODEL_)", "get_class"), include=True, prop="C18")
+
+
 def main(tier: str) -> int:
     rep = common.Report("C18", tier, "other")
     rep.functions = ["generated pt.S_1_0: __init__, property setters a, b, c, d, t, h (float16), g (float32)", "generated pt.U_1_0: __init__, property setters (union option switching)"]
@@ -25,11 +60,23 @@ def main(tier: str) -> int:
         conds.append(Cond("h_C18", "union_assignment_switches_option", T, 60, P))
         conds.append(Cond("h_C18", "float_setter_validates", T, 60, P))
         run_conditions(rep, conds)
-    rep.bounds = dict(fields="uint8, int12, uint3, int64, truncated uint17", values="windows of +-3 around both range bounds and around 0",
+    _b = dict(rep.bounds)
+    _pysym_stage(rep, tier)
+    _b.update(rep.bounds)
+    rep.bounds = dict(_b, fields="uint8, int12, uint3, int64, truncated uint17", values="windows of +-3 around both range bounds and around 0",
                       union="every None/non-None pattern of the three constructor arguments with boundary values; assignment after each initial option")
     rep.assumptions = ["windows around the bounds: the ValueError message formats the value and CrossHair then enumerates each out-of-range integer (wide ranges not confirmable)"]
-    rep.not_covered = ["arrays; floats beyond a finite list of 23 boundary / non-finite candidates for float16 and float32 fields (numpy C code realises symbolic values)", "_MODEL_ equality with the source DSDL model and the to_builtin round trip "
-                       "(no symbolic variable; pickle/numpy) -- these clauses are NOT decided", "types beyond pt.S.1.0 / pt.U.1.0"]
+    rep.not_covered = ["scalar floats beyond a finite list of 23 boundary / non-finite candidates for float16 and float32 fields (numpy C code realises symbolic values)",
+                       "_MODEL_ equality with the source DSDL model is a GROUND evaluation (unpickled model == pydsdl's model of the same definitions, "
+                       "get_class(get_model(cls)) is cls), not a solver verdict",
+                       "built-in round trip of objects holding a non-empty string-like (uint8[<=N]) array; NaN payloads; array elements given in a type other "
+                       "than the field's own numpy dtype or a list of such scalars",
+                       "scalar clauses: types beyond pt.S.1.0 / pt.U.1.0; array and round-trip clauses: types outside the codec corpus"]
+    from checks import py_common
+    rep.assumptions += py_common.ASSUMPTIONS
+    rep.functions += ["array clause (pysym): constructors and property setters of every array field of the codec corpus types",
+                      "built-in round trip (pysym): nunavut_support.to_builtin / _to_builtin_impl / update_from_builtin / get_attribute / set_attribute / get_class "
+                      "followed by <T>._serialize_ of both objects"]
     rep.extra["explanation"] = "CrossHair/z3 over the generated setters/constructors with symbolic candidate values"
     rep.extra["trusted_base"] = ["crosshair-tool 0.0.110", "z3", "CPython 3.12", "numpy (import only)"]
     return rep.write()
